@@ -1052,3 +1052,8 @@ LEVEL_NOTE = ("Trusted: Coq kernel+VM, the translator, the primitives of Model/P
               "and of the Interval glue (validated by correspondence every run), extraction+driver (cross-checked with vm_compute).")
 TECHNIQUE = ("Coq proof (lia over the borrow chain and the month-length branch; rebuild by calendar lemmas over Spec/Cal: ymd2ord linear in the day, "
              "one-month step) over translated code; differential correspondence; stdlib oracle")
+
+
+# ---- model = code theorems for Interval.__init__ / components (appended) ----
+TRUSTED = [t for t in TRUSTED] + ['model_is_code_interval_components: the Interval properties years, months, weeks, remaining_days, hours, minutes and in_years, in_months, in_weeks, in_days are translated from /repo on every run (Gen/IntervalGlue.v) and proved equal to Model/PdInterval.v iv_components (an Interval read through its PreciseDiff and Duration._days; Duration._sign checked by shape). The two values Interval.__init__ hands to precise_diff are the 4th/5th components of the translated __init__ (C05 model_is_code_interval_init); precise_diff itself is Gen/PreciseDiff.v (Python backend) / Model/RustPreciseDiff.v (compiled backend, hand model) as before']
+LEVEL_NOTE = LEVEL_NOTE + " " + 'model_is_code_interval_components: the Interval properties years, months, weeks, remaining_days, hours, minutes and in_years, in_months, in_weeks, in_days are translated from /repo on every run (Gen/IntervalGlue.v) and proved equal to Model/PdInterval.v iv_components (an Interval read through its PreciseDiff and Duration._days; Duration._sign checked by shape). The two values Interval.__init__ hands to precise_diff are the 4th/5th components of the translated __init__ (C05 model_is_code_interval_init); precise_diff itself is Gen/PreciseDiff.v (Python backend) / Model/RustPreciseDiff.v (compiled backend, hand model) as before' + "."
